@@ -1585,6 +1585,8 @@ impl LsmTree {
             #[cfg(rescrv_blue_verif)]
             crate::verif::sched(crate::verif::SchedEvent::IngestStalled);
             mutex = self.stall.wait(mutex).unwrap();
+            #[cfg(rescrv_blue_verif)]
+            crate::verif::sched(crate::verif::SchedEvent::IngestWoke);
             let mut version2 = self.take_snapshot();
             std::mem::swap(&mut version, &mut version2);
             drop(version2);
